@@ -124,7 +124,7 @@ def run_crash(run):
     opkinds = {}
     for rc in pp["runs"]:
         tdir = vlib.scratch("verif.crash.")
-        scripts = rc.get("scripts") or int((4 if quick else 60) * rc.get("scripts_mult", 1))
+        scripts = rc.get("scripts") or int((4 if quick else 36) * rc.get("scripts_mult", 1))   # thorough: sized to finish well inside the driver timeout on a loaded machine
         env = dict(VERIF_OUT=tdir, VERIF_CRASHPROFILE=rc["profile"], VERIF_SEED=str(run.seed), VERIF_CONFIGS=rc["cfgs"],
                    VERIF_SCRIPTS=str(scripts), VERIF_STEPS=str(30 if quick else 45),
                    VERIF_MAXPROBES=str(2500 if quick else 6000))
